@@ -391,6 +391,8 @@ class JinjaInterp:
                 if j >= 0:
                     v = join(v, self.ev(defaults[j], env))
                 env[a.name] = v
+            if (tname, mname, "caller") in self.macro_params:
+                env["caller"] = self.macro_params[(tname, mname, "caller")]
             before = len(self.emissions)
             labels_before = self.macro_labels.get(key, frozenset())
             self._macro_label_acc = set(labels_before)
@@ -726,7 +728,35 @@ class JinjaInterp:
             return self.block(n.body, e2, state)
         if isinstance(n, nodes.Scope):
             return self.block(n.body, dict(env), state)
-        if isinstance(n, nodes.CallBlock) or isinstance(n, nodes.FilterBlock):
+        if isinstance(n, nodes.CallBlock):
+            # `{% call m(args) %}body{% endcall %}` prints m(args) here; inside m, `caller()` is the body.  The body is kept as a deferred
+            # block (like `{% set x %}...{% endset %}`) bound to the implicit macro parameter `caller`, and is interpreted wherever the
+            # macro prints it, in the lexical state of that place.
+            bid = f"{ti.name}:{self.cur_macro}:call:{n.lineno}"
+            benv = dict(env)
+            for a in n.args:  # `{% call(x) m() %}`: what the macro passes to caller(x) is not tracked
+                benv[a.name] = typed("Any", labels=[UNKNOWN])
+            self.blocks[bid] = (n, benv, ti, self.cur_macro)
+            acc: set[str] = set()
+            saved_acc = getattr(self, "_macro_label_acc", None)
+            self._macro_label_acc = acc
+            self._dry += 1
+            saved_neutrality = dict(self.neutrality)
+            try:
+                self.block(n.body, dict(benv), LX.start_state(ti.lang))
+            finally:
+                self._dry -= 1
+                self._macro_label_acc = saved_acc
+                self.neutrality.clear()
+                self.neutrality.update(saved_neutrality)
+            caller = AV(types=frozenset({"str"}), labels=frozenset(acc), funcs=frozenset({("block", bid)}))
+            f = self.ev(n.call.node, env)
+            for fn in f.funcs:
+                if fn[0] == "macro":
+                    self._set(self.macro_params, (fn[1], fn[2], "caller"), caller)
+            v = self.ev(n.call, env)
+            return self.emit(n.call, v, state)
+        if isinstance(n, nodes.FilterBlock):
             self.unsupported[type(n).__name__] = self.unsupported.get(type(n).__name__, 0) + 1
             return self.block(n.body, dict(env), state)
         self.unsupported[type(n).__name__] = self.unsupported.get(type(n).__name__, 0) + 1
@@ -761,11 +791,18 @@ class JinjaInterp:
         ti = self.cur_t
         assert ti is not None
         blocks = [f for f in v.funcs if f[0] == "block"]
-        if blocks and isinstance(node, nodes.Name) and len(v.funcs) == len(blocks):
+        if blocks and isinstance(node, (nodes.Name, nodes.Call)) and len(v.funcs) == len(blocks):
             ends_b = set()
             for _k, bid in blocks:
-                bn, benv, _bt, _bm = self.blocks[bid]
-                ends_b.add(self.block(bn.body, dict(benv), state))
+                bn, benv, bt, bm = self.blocks[bid]
+                # the body's holes belong to the template / macro the block is written in (keys do not move when a block is handed to
+                # a macro and printed there); the lexical state and the facts are those of the place where it is printed
+                saved_tm = (self.cur_t, self.cur_macro)
+                self.cur_t, self.cur_macro = bt, bm
+                try:
+                    ends_b.add(self.block(bn.body, dict(benv), state))
+                finally:
+                    self.cur_t, self.cur_macro = saved_tm
             if len(ends_b) > 1:
                 self.neutrality[(ti.name, self.cur_macro, f"expr {expr_text(node)}")] = \
                     f"captured blocks emitted by `{expr_text(node)}` leave different lexical states {sorted(ends_b)}"
@@ -1040,6 +1077,8 @@ class JinjaInterp:
         f = self.ev(n.node, env)
         args = [self.ev(a, env) for a in n.args]
         kwargs = {k.key: self.ev(k.value, env) for k in n.kwargs}
+        if f.funcs and all(x[0] == "block" for x in f.funcs):
+            return f  # `caller()` inside a macro invoked by `{% call %}`: the caller's block, emitted where this call is printed
         where = f"{ti.name}:{n.lineno}"
         out = BOTTOM
         alias0 = n.node.node.name if isinstance(n.node, nodes.Getattr) and isinstance(n.node.node, nodes.Name) else ""
